@@ -10,6 +10,8 @@ CONSTANTS
   RetainPats <- cRetain
   ItemSeqs <- cItems2
   Hints = {0, 20}
+  RawArgs <- cRawNone
+  U16Args <- cU16None
   FailMode = 2
   PanicMode = 0
   Seeds <- cSeedsAll
